@@ -403,6 +403,38 @@ func c18R4(h H) {
 		}
 		cmpOK = all
 	}
+	// flag-free form of the same decision (e.g. a token-matching helper with early returns): within one
+	// iteration of the coding loop, the open is reachable only through the 'equal' outcome of a comparison of
+	// an Accept-Encoding token with this coding's name
+	{
+		fromHdr := func(x ssa.Value) bool {
+			return derives(x, func(v ssa.Value) bool {
+				c, ok := v.(*ssa.Call)
+				if !ok || calleeName(&c.Call) != "(net/http.Header).Get" {
+					return false
+				}
+				s, _ := constString(c.Call.Args[1])
+				return s == "Accept-Encoding"
+			}, flowOpts{throughCalls: true})
+		}
+		eqEdges := map[edge]bool{}
+		for _, i := range ifs(fn) {
+			v, flip := stripNot(i.Cond)
+			bo, ok := v.(*ssa.BinOp)
+			if !ok || (bo.Op != token.EQL && bo.Op != token.NEQ) {
+				continue
+			}
+			for _, pair := range [][2]ssa.Value{{bo.X, bo.Y}, {bo.Y, bo.X}} {
+				p, root := fieldPath(pair[1])
+				if p == "name" && (elem == nil || sameValue(root, elem) || root == elem) && fromHdr(pair[0]) {
+					eqEdges[condEdge{i, (bo.Op == token.EQL) != flip}.edge()] = true
+				}
+			}
+		}
+		if len(eqEdges) > 0 && !canReach(fn, firstInstr(hd), open, cut{edges: eqEdges}) {
+			flagOK, cmpOK = true, true
+		}
+	}
 	r.Check(flagOK, "R4", "staticfiles.FileServer.serveFile/accepted-flag-per-encoding", open.Pos(), "whether the client accepts a coding is decided afresh for every coding (a flag carried over from a previous coding would serve codings the client never offered)")
 	r.Check(cmpOK, "R4", "staticfiles.FileServer.serveFile/accepted-means-listed", open.Pos(), "a coding counts as accepted only if one of the Accept-Encoding tokens equals that coding's name")
 	// label
